@@ -222,6 +222,12 @@ where
 
 		// write the output representing our change
 		for (id, _, _) in &context.get_outputs() {
+			// when a wallet pays its own invoice the context also lists the invoice's own
+			// output, which was recorded (with its received entry) when the invoice was
+			// issued: it is not change of this entry
+			if batch.get(id, &None).is_ok() {
+				continue;
+			}
 			t.num_outputs += 1;
 			let (commit, change_amount) = output_commits.get(&id).unwrap().clone();
 			t.amount_credited += change_amount;
